@@ -69,6 +69,21 @@ func Solve(cfg *SolverCfg, smt string, wantModel bool) solverResult {
 	return solveWith(cfg, smt, wantModel, false)
 }
 
+// SolveLite: one short z3-new attempt on the reduced query; only "unsat" is used.
+func SolveLite(cfg *SolverCfg, smt string) solverResult {
+	h := sha256.Sum256([]byte(smt))
+	key := hex.EncodeToString(h[:12])
+	if r, ok := solveCache.Load("lite" + key); ok {
+		return r.(solverResult)
+	}
+	file := filepath.Join(cfg.Dir, "lite"+key+".smt2")
+	os.WriteFile(file, []byte(smt), 0o644)
+	defer os.Remove(file)
+	r := runSolver("z3-new", []string{"-T:3", "-t:2500"}, file, 2500)
+	solveCache.Store("lite"+key, r)
+	return r
+}
+
 // SolveCanary: a vacuity canary only needs "not unsat"; one short attempt is enough.
 func SolveCanary(cfg *SolverCfg, smt string) solverResult {
 	return solveWith(cfg, smt, false, true)
